@@ -12,15 +12,14 @@ from pathlib import Path
 V = Path(__file__).resolve().parent.parent
 sys.path.insert(0, str(V))
 
-NA = {
-    "C02": "round-trip equality of encoder and decoder outputs over all payloads is a law about runtime values; no clause of it is a dominance / who-may-call / table-agreement fact that a realistic regression would break (DESIGN.md section 5); static analysis does not apply",
-    "C04": "match(build(v)) == v over converter value spaces is an identity between two runtime computations (to_url + quoting + compiled builder vs. regex matching + to_python); nothing of it is visible in the shape of the code (DESIGN.md section 5); static analysis does not apply",
-}
+NA: dict[str, str] = {}
 # properties whose rule module I have reviewed and accepted (a module that merely exists is not claimed)
-READY = ["C01", "C03", "C05", "C06", "C07", "C08", "C09", "C10", "C11", "C12", "C13", "C14", "C15", "C16", "C17", "C18", "C19", "C20"]
+READY = ["C01", "C02", "C03", "C04", "C05", "C06", "C07", "C08", "C09", "C10", "C11", "C12", "C13", "C14", "C15", "C16", "C17", "C18", "C19", "C20"]
 PENDING = "check not built yet in this session (planned in DESIGN.md section 4); not claimed until it exists"
 
 TECH = {
+    "C02": "abstract interpretation of the parser / encoder / test-client source over symbolic events (value-path purity, framing constants vs decoder regex languages, urlencoded writer/reader table agreement)",
+    "C04": "abstract interpretation of the routing source with concrete rule configurations and opaque values (quoting tables, converter pairs, builder wiring, match pairing, query encoding, default converter table, URL assembly)",
     "C01": "constant folding + regex width analysis; typestate over the decoder's branches",
     "C03": "CFG statement order, class-attribute folding over the converter hierarchy, sibling-loop cross-check",
     "C05": "sanitiser-dominance provenance over every store into header storage; guard-set extraction; CFG return-shape rules",
@@ -66,7 +65,7 @@ def main() -> None:
                 "evidence_file": f"/verif/evidence/{pid}.json",
                 "replay_cmd_template": f"./check {pid} --replay {{path}}",
                 "engine": "wzsa",
-                "level_claimed": {"category": "other", "text": mod.LEVEL_TEXT, "design_ref": f"DESIGN.md section 4, {pid}"},
+                "level_claimed": {"category": "other", "text": mod.LEVEL_TEXT, "design_ref": f"DESIGN.md section 9.0, {pid}" if pid in ("C02", "C04") else f"DESIGN.md section 4 and 8.2, {pid}"},
                 "level_note": "Trusted: " + "; ".join(mod.TRUSTED) + ". Assumed: " + "; ".join(mod.ASSUMPTIONS),
                 "technique": "static analysis: " + TECH[pid],
             }
